@@ -3,6 +3,7 @@ S4/S5 and C20-H4: the 64-bit buffered bit reader and writer of internal/prefix
 refine reading and writing a plain bit list, for every source shape.
 -/
 import Compress.Prefix.BitSpec
+import Compress.Proofs.BitIOReaderBuf
 
 namespace Compress.Proofs.BitIO
 open Compress Compress.Prefix
@@ -17,7 +18,9 @@ theorem reader_refines (data : List UInt8) (big buffered : Bool) (adv : List Nat
     (hn : ∀ n ∈ ns, n ≤ 56) :
     readScript (BR.init { data := data, bufAdv := adv, buffered? := buffered } big) ns =
       specReadScript (streamBits big data) ns := by
-  sorry
+  cases buffered
+  · exact reader_refines_byte data big adv ns hn
+  · exact reader_refines_buffered data big adv ns hn
 
 /-- **S5 (writer).** With a sink that never fails, writing fields (each value
     below `2^n`, `n ≤ 56`), padding to a byte and flushing hands the sink exactly
@@ -25,8 +28,23 @@ theorem reader_refines (data : List UInt8) (big buffered : Bool) (adv : List Nat
 theorem writer_refines (big : Bool) (fs : List (Nat × Nat))
     (hf : ∀ f ∈ fs, f.2 ≤ 56 ∧ f.1 < 2 ^ f.2) :
     let r := writeScript { bigEndian := big } fs
-    r.2 = none ∧ r.1.sink.got = packBits big (fieldBits fs) ∧ r.1.buf = [] ∧ r.1.numBits = 0 := by
-  sorry
+    r.2 = none ∧ r.1.sink.got = packBits big (fieldBits fs) ∧ r.1.buf = [] ∧ r.1.numBits = 0 :=
+  writer_refines' big fs hf
+
+/-- reading the fields back from the number they spell. -/
+theorem numSpec_fieldBits : ∀ (fs : List (Nat × Nat)) (L : Nat), (fieldBits fs).length ≤ L →
+    (∀ f ∈ fs, f.2 ≤ 56 ∧ f.1 < 2 ^ f.2) →
+    numSpec (Bits.toNat (fieldBits fs)) L (fs.map (·.2)) = fs.map (fun f => .ok f.1)
+  | [], _, _, _ => rfl
+  | (v, n) :: fs, L, hL, hf => by
+    obtain ⟨_, hv⟩ := hf (v, n) (by simp)
+    simp only at hv
+    obtain ⟨t1, t2⟩ := toNat_fieldBits_cons v n fs hv
+    rw [t2] at hL
+    simp only [List.map_cons, numSpec]
+    rw [if_neg (by omega), t1, Nat.add_mul_mod_self_left, Nat.mod_eq_of_lt hv,
+      Nat.add_mul_div_left _ _ (Nat.two_pow_pos n), Nat.div_eq_of_lt hv, Nat.zero_add,
+      numSpec_fieldBits fs (L - n) (by omega) (fun f hm => hf f (by simp [hm]))]
 
 /-- **H4 (round trip).** Whatever is written comes back, in both bit orders and
     for every source shape. -/
@@ -35,6 +53,13 @@ theorem roundtrip (big buffered : Bool) (adv : List Nat) (fs : List (Nat × Nat)
     readScript (BR.init { data := (writeScript { bigEndian := big } fs).1.sink.got, bufAdv := adv,
                           buffered? := buffered } big) (fs.map (·.2)) =
       fs.map (fun f => .ok f.1) := by
-  sorry
+  rw [reader_refines _ big buffered adv _ (by
+    intro n hn
+    obtain ⟨f, hf1, rfl⟩ := List.mem_map.mp hn
+    exact (hf f hf1).1)]
+  rw [(writer_refines big fs hf).2.1, specReadScript_eq, toNat_streamBits, length_streamBits]
+  obtain ⟨q1, q2⟩ := le64_packBits' big (fieldBits fs)
+  rw [q1, q2]
+  exact numSpec_fieldBits fs _ (by omega) hf
 
 end Compress.Proofs.BitIO
